@@ -34,10 +34,8 @@ func DoRSAencrypt(block []byte, key *rsa.PublicKey) []byte {
 
 	c := big.NewInt(0).Exp(z, exponent, key.N)
 
-	res := make([]byte, 256)
-	copy(res, c.Bytes())
-
-	return res
+	// result is 2048 bit number, big.Int.Bytes() drops leading zero bytes, so value must be aligned to right
+	return dry.BigIntBytes(c, 2048) //nolint:gomnd size of rsa block
 }
 
 // SplitPQ splits a number into two primes, while p1 < p2
